@@ -78,7 +78,8 @@ def walk_invariant(ctx, hts, history):
 
 def embeddings(host):
     return [("bare", host), ("http", "http://%s/p" % host), ("full", "https://u:p@%s:8080/x?y=1#z" % host),
-            ("split", urlsplit("http://%s/q" % host)), ("bare-port", "%s:8080/x" % host), ("bare-path", "%s/p?q=1#f" % host), ("slashes", "//%s/p" % host)]
+            ("split", urlsplit("http://%s/q" % host)), ("bare-port", "%s:8080/x" % host), ("bare-path", "%s/p?q=1#f" % host), ("slashes", "//%s/p" % host),
+            ("bare-query", "%s?next=http://other.example.org/x" % host), ("bare-fragment", "%s#ftp://other.example.org" % host)]
 
 
 def check_history(ctx, HTS, adds, query_hosts):
@@ -222,6 +223,15 @@ def run(ctx):
                 ctx.cls("directed")
                 ctx.nontrivial(("d", h))
                 ctx.sample("directed", {"adds": h})
+        if ctx.shard == 0:
+            from vf.gen.hosts import TRICKY_HOSTS
+            tq = [(canon(q), [q, q.upper()]) for q in TRICKY_HOSTS] + [(canon("x." + q), ["x." + q]) for q in TRICKY_HOSTS]
+            for h in TRICKY_HOSTS:
+                check_history(ctx, HTS, [h], tq)
+                ctx.cls("directed-tricky-host")
+            check_history(ctx, HTS, list(TRICKY_HOSTS), tq)
+            check_history(ctx, HTS, list(reversed(TRICKY_HOSTS)), tq)
+            ctx.nontrivial(("tricky", "all"))
         H2 = hosts_over("ab", 3)
         Q2 = [(h, [h]) for h in hosts_over("ab", 4)]
         maxlen = 3 if ctx.tier == "quick" else 4
